@@ -178,7 +178,7 @@ def observe(result, items, owner, ninputs):
 
 def compare(model, obs, result):
     """None if the implementation did what the model says, else a description"""
-    hand = [hx(e) for _, e in result.handoffs]
+    hand = [hx(e) for _, e in result.handoffs if e]      # a child that got no envelope (refused message) is no hand-off
     mh = [m['handoff'] for m in model if m['handoff'] != '-']
     for i, (m, o) in enumerate(zip(model, obs)):
         if m['codes'] != o['codes']:
